@@ -87,7 +87,7 @@ PROPS["C04"] = {
     "kani": [],
     "witness_always": ["kp_search"],
     "witness_fns": {"kp_search": ["break_line_single_attempt", "demerits", "badness", "num_nodes_for_next_class"]},
-    "witness_bound": {"kp_search": "break_line_single_attempt vs exhaustive search over ALL sets of legal breakpoints under an independent transcription of TeX 108/851-855/859/837: every paragraph of <= 4 boxes (3 widths) joined by 18 separators (finite glue, penalty +-50 / 10000 / -10000 before glue, explicit kern before glue, none, font kern after glue, penalty -20000, fill / filll glue, five discretionary shapes: hyphen, explicit hyphen + glue, with post-break box, replacing the next box, empty pre-break with a post-break box) x 4 line-width sequences x tolerance {200, 10000, 20000} x 2 parameter sets (the second with \\hyphenpenalty 120 / \\exhyphenpenalty 30, adj_demerits 3000, line_penalty 50) (about 1.9 x 10^6 paragraphs in the quick tier, the 4-box space thinned; thorough: all of it and a thinned 5-box space); hyphen demerits included; \\looseness +1 (with \\hyphenpenalty 10000) / -1 on a sixth of the paragraphs (TeX 875: optimum's line count + looseness when feasible, the cheapest such sequence; else the pass fails); that sixth also with a FINITE \\parfillskip (last line with its own fitness class); no math or emergency pass"},
+    "witness_bound": {"kp_search": "break_line_single_attempt vs exhaustive search over ALL sets of legal breakpoints under an independent transcription of TeX 108/851-855/859/837: every paragraph of <= 4 boxes (3 widths) joined by 18 separators (finite glue, penalty +-50 / 10000 / -10000 before glue, explicit kern before glue, none, font kern after glue, penalty -20000, fill / filll glue, five discretionary shapes: hyphen, explicit hyphen + glue, with post-break box, replacing the next box, empty pre-break with a post-break box) x 6 line-width sequences (one, two and three different widths) x tolerance {200, 10000, 20000} x 2 parameter sets (the second with \\hyphenpenalty 120 / \\exhyphenpenalty 30, adj_demerits 3000, line_penalty 50) (about 6.7 x 10^6 paragraphs in the quick tier: <= 3 boxes exhaustively, the 4-box space 1 in 5, the 5-box space 1 in 1201; thorough: 4 boxes exhaustively and the 5-box space 1 in 37); hyphen demerits included; \\looseness +1 (with \\hyphenpenalty 10000) / -1 on a sixth of the paragraphs (TeX 875: optimum's line count + looseness when feasible, the cheapest such sequence; else the pass fails); that sixth also with a FINITE \\parfillskip (last line with its own fitness class); no math or emergency pass"},
     "unverified_callers": [
         "LineBreaker::break_line_single_attempt (480-line active-node search): feasibility iff and demerit-optimality are NOT proved; they are covered only by the bounded driver kp_search (labelled bounded, not counted)",
         "the two call sites of badness (shortfall > 0 / -shortfall) and of demerits (penalty within +-10000) sit inside that function",
